@@ -398,3 +398,16 @@ def c31(ctx):
                 "integrals for the inverse functions) in the exact/modular value domain and compares every "
                 "coefficient returned by series()")
     simple(ctx, "MC_C31", "Trace_C31", floor=0.5, shards=5)
+
+
+@plan("C30")
+def c30(ctx):
+    ctx.rule = ("TLC builds polynomial equations of degree 1-4 from their roots (9 rational roots, 6 irreducible "
+                "quadratics with complex / irrational roots, repeated roots, three leading coefficients), rational "
+                "equations from numerator and denominator factor lists that share factors, 14 linear trigonometric "
+                "equations and 2x2 / 3x3 linear systems, over the default, complex and real domains; TLC validates "
+                "that every returned member is a solution (exactly where its value is defined, and to 2^-20 against "
+                "the known roots otherwise), that no pole is returned, that every solution in the domain is returned, "
+                "that membership of 61 probes k*pi/12 in the trigonometric solution sets coincides with f = 0, and "
+                "that linsolve's vector satisfies every equation of a uniquely solvable system")
+    simple(ctx, "MC_C30", "Trace_C30", floor=0.3, shards=5)
